@@ -471,6 +471,8 @@ type bubbleCtl struct {
 	phase    atomic.Pointer[phaseInfo]
 	bubbleID atomic.Int64
 	descr    atomic.Pointer[string] // scenario description for the watchdog record
+	finished atomic.Bool            // runBubble has returned from the bubble
+	rearmed  atomic.Int64           // times the watchdog gave a slow but advancing bubble more time
 }
 
 func (b *bubbleCtl) SetPhase(name, prop string) {
@@ -539,6 +541,7 @@ func (r *Run) runBubble(t *testing.T, wd time.Duration, descr string, f func(ctl
 		})
 	}()
 	<-done
+	ctl.finished.Store(true)
 	if repanic != nil {
 		panic(repanic)
 	}
@@ -687,6 +690,9 @@ func censusProcess() []gInfo {
 }
 
 func (r *Run) watchdogFired(ctl *bubbleCtl, wd time.Duration) {
+	if ctl.finished.Load() {
+		return
+	}
 	id := ctl.bubbleID.Load()
 	ph := ctl.phase.Load()
 	var dumps []string
@@ -723,9 +729,21 @@ func (r *Run) watchdogFired(ctl *bubbleCtl, wd time.Duration) {
 		dumps = append(dumps, sb.String())
 		time.Sleep(500 * time.Millisecond)
 	}
+	// Nothing of the bubble is left (seen once, on a machine running three sweeps at a time: the
+	// timer fired although the scenario had completed): nothing to judge.
+	if ctl.finished.Load() || dumps[len(dumps)-1] == "" {
+		r.Count("watchdog_fired_for_a_bubble_that_was_over", 1)
+		return
+	}
+	// A bubble that is merely slow advances its progress counter: it gets more time (a wall-clock
+	// bound alone proves nothing on a loaded machine), three times at most.
+	if ctl.progress.Load() != progress0 && ctl.rearmed.Add(1) <= 3 {
+		r.Count("watchdog_gave_a_slow_bubble_more_time", 1)
+		time.AfterFunc(wd, func() { r.watchdogFired(ctl, wd) })
+		return
+	}
 	// A spin: a goroutine started by the library was never seen blocked over the whole
-	// sampling window (5 s) and the stepper made no progress at all meanwhile. A bubble that
-	// is merely slow advances its progress counter.
+	// sampling window (5 s) and the stepper made no progress at all meanwhile.
 	spinning := ""
 	if ctl.progress.Load() == progress0 {
 		for gid, c := range counts {
